@@ -14,7 +14,7 @@ from . import common
 LEVEL = "exploration"
 RULE = ("case = random union of 2-4 members in ARBITRARY declaration order over basic scalars, converted scalars (date, "
         "datetime, UUID, Decimal, timedelta, enums, paths), containers, dataclasses, NamedTuples, Literals and None, also as "
-        "Optional[Union], nested in containers, and as constrained TypeVar; plus bare Literal types (incl. True/1, '1'/1, "
+        "Optional[Union], nested in containers (list, dict, deque, variable and fixed tuples, themselves Optional / defaulting to None), and as constrained TypeVar; plus bare Literal types (incl. True/1, '1'/1, "
         "bytes, enum members). Inputs per union: every member's valid wire forms, cross-type scalars, None, junk pool. "
         "Oracle decode: outcome == REF_UNION_DECODE(U, d) incl. the raise case, via codec and dataclass field "
         "(InvalidFieldValue). Oracle encode: encode_U(v) == encode_member(v) for values generated from a known member. "
@@ -105,6 +105,15 @@ def run_case(seed, tier, rec, st):
                 if all(m[0] not in ("lit", "none") for m in members):
                     fam.add({"k": "typevar", "name": tvn, "constraints": list(members)})
                     t = ("tv", tvn)
+            elif w < 0.40:
+                t = ("vtuple", rng.choice(["Tuple", "tuple"]), t)
+            elif w < 0.45:
+                t = ("tuple", "Tuple", [t, ("int",)])
+            elif w < 0.48:
+                t = ("seq", "Deque", t)
+            # the container itself optional (the enclosing position then already knows the value is not None)
+            if t[0] in ("seq", "map", "vtuple", "tuple") and rng.random() < 0.4:
+                t = ("opt", t, "Optional")
         ref = Ref(fam)
         tt = common.eval_type(fam, t)
         t = common.align_unions(fam, t, tt)      # typing's alias cache may hand back another member order
@@ -114,7 +123,10 @@ def run_case(seed, tier, rec, st):
             rec.violation(f"codec-build:{type(e).__name__}", {"type": tast.render(t), "error": str(e)[:300], "family": fam.to_json()}, {"stage": "build"})
             return
         wname = tg.fresh("W")
-        fam.add({"k": "dc", "name": wname, "bases": [], "mixin": "DataClassDictMixin", "fields": [{"n": "x", "t": t}]}, tg.value_maker)
+        wx = {"n": "x", "t": t}
+        if t[0] == "opt" and rng.random() < 0.5:
+            wx.update(dmode="default", dseed=0, const_default=None)
+        fam.add({"k": "dc", "name": wname, "bases": [], "mixin": "DataClassDictMixin", "fields": [wx]}, tg.value_maker)
         W = fam.get(wname)
         vg = Gen(fam, rng)
         facts0 = {"type_kinds": sorted({n[0] for n in common.deep_nodes(fam, t)}), "union_copy_shortcut": common.union_copy_fact(fam, t)}
@@ -224,4 +236,8 @@ def earlier_member(ref, t, v):
         return any(earlier_member(ref, s[2], x) for x in v)
     if s[0] == "map":
         return any(earlier_member(ref, s[3], x) for x in v.values())
+    if s[0] == "vtuple":
+        return any(earlier_member(ref, s[2], x) for x in v)
+    if s[0] == "tuple":
+        return any(earlier_member(ref, m, x) for m, x in zip(s[2], v))
     return False
